@@ -400,6 +400,14 @@ pcalls = [
     ("startRetrying", callers(plugin_files, r"\.start_retrying\(")),
     ("retrierStart", callers(plugin_files, r"retrier\.start\(")),
 ]
+# the order in which `Retrier::run` records an answer and releases the pending copy (textual order of the calls)
+_rt = non_test("watchtower-plugin/src/retrier.rs")
+_rfns = functions(_rt)
+run_order = []
+for _m in re.finditer(r"\.(add_appointment_receipt|add_invalid_appointment|remove_pending_appointment|flag_misbehaving_tower)\(", _rt):
+    _encl = [(st, n) for n, st, en in _rfns if st <= _m.start() < en]
+    if _encl and max(_encl)[1] == "run":
+        run_order.append(_m.group(1))
 plib = strip_comments(src("watchtower-plugin/src/lib.rs"))
 m = re.search(r"pub enum TowerStatus\s*\{(.*?)\}", plib, flags=re.S)
 status_variants = re.findall(r"(\w+)\s*,", m.group(1)) if m else []
@@ -419,6 +427,8 @@ if all(l for _, l in pcalls) and not any(n == "?" or x == "?" for _, l in pcalls
     C.append("def statusVariants : List String := [" + ", ".join(cq(v) for v in status_variants) + "]")
     C.append("def statusNames : List (String × String) := [" + ", ".join(f"({cq(a)}, {cq(b_)})" for a, b_ in status_names) + "]")
     C.append("def retryable : List String := [" + ", ".join(cq(v) for v in retryable) + "]")
+    C.append("/-- `Retrier::run`: the calls that record a tower's answer / release the pending copy, in source order -/")
+    C.append("def retrierRunOrder : List String := [" + ", ".join(cq(v) for v in run_order) + "]")
     C += ["", "end Teos.Gen.PluginCalls"]
     t = "\n".join(C) + "\n"
     if not os.path.exists(ppath) or open(ppath).read() != t:
